@@ -49,9 +49,10 @@ TRUSTED_BASE = [
     "np.linalg.inv on the unit-triangular 0/1 matrices that occur is exact in floating point (the model inverts over GF(2); that the matrices are "
     "upper unitriangular, that the exact inverse exists and is two-sided, and that no internal assertion of is_lc_equivalent can fire is proved: "
     "is_lc_equivalent_component_total, is_lc_equivalent_total)",
-    "_phase_correction is modelled at specification level (the unique set of Z gates fixing the signs; proved: it exists for every valid Q, the model "
-    "finds it, and the total gate list maps |A> onto |B> - gates_with_phase_correction_map_the_state, lc_check_total_and_right); that graphiq's "
-    "computation from two canonical forms gives the same set is compared per input; canonical_form itself belongs to C05",
+    "_phase_correction and the validation of lc_check are modelled function by function for the repaired code (converterGateListF / lcCheckF: the C08 "
+    "model S2G.phaseCorrection, comparison of canonical forms) and proved to return what the specification-level model returns "
+    "(phase_correction_is_the_sign_fix, lc_check_function_level_agrees); canonical_form itself belongs to C05; for the unrepaired code the "
+    "specification-level model (unique set of Z gates fixing the signs) is compared",
     "tensor-product lifting of the tableau semantics (C07) used to interpret the returned gates",
     "harness, line protocol, driver BFS orbit enumeration over the verified localComp",
 ]
